@@ -2,12 +2,12 @@
 # benigncheck.sh <PROP> <k> : validate one behaviour-preserving refactoring written by a sub-agent and run
 # every check on it.  Any check that does not exit 0 on it is a false alarm (exit 1) or an incomplete
 # analysis (exit 2) of the machinery.
-# Input:  /tmp/wtb_<PROP>/seed_out/patch<k>.diff, equiv<k>.py, notes<k>.md   (round 2: /tmp/wtb2_<PROP>, tag <PROP>-r2-<k>)
+# Input:  /tmp/wtb_<PROP>/seed_out/patch<k>.diff, equiv<k>.py, notes<k>.md   (round N>1: /tmp/wtb<N>_<PROP>, tag <PROP>-r<N>-<k>)
 # A patch stored under /verif/seeded/benign/<tag>/patch.diff (e.g. rebased onto a later HEAD) takes precedence.
 # Output: /verif/seeded/benign/<PROP>-<k>/{patch.diff,equiv.py,notes.md,meta.json,checks.txt}
 set -u
 P=$1; K=$2; R=${3:-1}
-if [ "$R" = "2" ]; then ORIG=/tmp/wtb2_$P; TAG=$P-r2-$K; else ORIG=/tmp/wtb_$P; TAG=$P-$K; fi
+if [ "$R" = "1" ]; then ORIG=/tmp/wtb_$P; TAG=$P-$K; else ORIG=/tmp/wtb${R}_$P; TAG=$P-r$R-$K; fi
 SRC=$ORIG/seed_out
 WT=/tmp/sb_$TAG
 OUT=/verif/seeded/benign/$TAG
@@ -19,7 +19,7 @@ cd $WT
 res_apply=ok; git apply $PATCH 2>/dev/null || git apply -3 $PATCH || res_apply=fail
 tests=$(PYTHONPATH=$WT timeout 900 /venv/bin/python -m pytest -q -p no:cacheprovider tests 2>&1 | tail -1)
 LOCK=/tmp/seedlock_$(basename $ORIG)
-flock $LOCK sh -c "cd $ORIG && git checkout -q -- . && git apply $SRC/patch$K.diff && PYTHONPATH=$ORIG timeout 3000 /venv/bin/python seed_out/equiv$K.py > $WT/equiv_with.log 2> $WT/equiv_with.err; git checkout -q -- ."
+flock $LOCK sh -c "cd $ORIG && git checkout -q -- . && git clean -fdq -e seed_out -e __pycache__ && git apply $SRC/patch$K.diff && PYTHONPATH=$ORIG timeout 3000 /venv/bin/python seed_out/equiv$K.py > $WT/equiv_with.log 2> $WT/equiv_with.err; git checkout -q -- .; git clean -fdq -e seed_out -e __pycache__"
 flock $LOCK sh -c "cd $ORIG && git checkout -q -- . && PYTHONPATH=$ORIG timeout 3000 /venv/bin/python seed_out/equiv$K.py > $WT/equiv_without.log 2> $WT/equiv_without.err"
 same=no; cmp -s $WT/equiv_with.log $WT/equiv_without.log && [ -s $WT/equiv_with.log ] && same=yes
 mkdir -p $WT/chk
